@@ -17,6 +17,7 @@ typedef struct { int a; int b; } ST; ST st, st2; typedef struct { int a; bool b;
 int ar[2], ar2[2]; int ar3[3]; chan c, c2; broadcast chan bc; int f1(int q) { return q; } double fd() { return 1.0; }
 typedef S1 S1a; S1a s1a; typedef S1a S1aa; S1aa s1aa; typedef ST STa; STa sta; typedef int[0,3] R3; typedef R3 R3a; R3a j2;
 typedef int A2[2]; typedef A2 A2a; A2a ara; typedef clock CK; typedef CK CKa; CKa xa; meta int mi;
+const ST kst = {1, 2}; const int kar[2] = {1, 2}; const int[0,3] kj = 1; void wri(int &r) { r = 1; } void wrj(int[0,3] &r) { r = 1; } void wrs(ST &r) { r.a = 1; }
 const int N4 = 4; int[0,N4] jn; int[0,4] j4; int[0,2+2] jp; int an[N4]; int a4[4]; int ap[2+2]; int[0,N4] arn[2]; int[0,4] ar4[2];
 """
 POOL_Q = ["i", "j", "ci", "bb", "d", "x", "x - y", "s1", "s2", "st", "ar", "c", '"abc"', "i + 1", "d * 2.0", "1", "1.5",
@@ -107,6 +108,38 @@ def shard_inlineif(args):
                            "`%s` -> %s but `%s` -> %s" % (it[0], v1, it[1], v2), rp)
         if len(part.samples) < 1 and v1[0] == "accepted" and it[2] != it[3]:
             part.sample({"then_else": it[0], "swapped": it[1], "verdict": v1})
+    return part.result()
+
+
+# ---- inline-if as an l-value: swapping the branches (and negating the condition) must not change whether it is writable ------
+LV_POOL = ["i", "ci", "j", "kj", "j2", "st.a", "kst.a", "ar[0]", "kar[0]", "ar[i]", "st", "kst", "mi", "d", "bb", "b2"]
+LV_WRITES = ["({L}) = 1", "({L}) += 1", "++({L})", "({L})--", "wri({L})", "wrj({L})", "({L}) = ({L})"]
+LV_STRUCT_WRITES = ["({L}) = st2", "wrs({L})", "({L}).a = 1"]
+
+
+def shard_lvalue_inlineif(a):
+    part = engine.Part()
+    w = engine.worker("fast")
+    items = []
+    for b in LV_POOL:
+        for wr in (LV_STRUCT_WRITES if a in ("st", "kst") or b in ("st", "kst") else LV_WRITES):
+            f = wr.replace("{L}", "bb ? %s : %s" % (a, b))
+            g = wr.replace("{L}", "!bb ? %s : %s" % (b, a))
+            items.append((f, g, a, b, wr))
+    fwd = call_exprs(w, DECL, [it[0] for it in items])
+    bwd = call_exprs(w, DECL, [it[1] for it in items])
+    for it, r1, r2 in zip(items, fwd, bwd):
+        part.count(2)
+        rp = {"op": "exprs", "ctx": {"kind": "decl", "text": DECL}, "items": [it[0], it[1]]}
+        if engine.check_crash(part, PID, r1, it[0], rp) or engine.check_crash(part, PID, r2, it[1], rp):
+            continue
+        v1, v2 = verdict(r1), verdict(r2)
+        part.outcome("inlineif-lvalue:" + v1[0])
+        if it[2] != it[3]:
+            part.nontrivial_case(it[0])
+        if v1[0] != v2[0]:
+            part.violation("inlineif-lvalue-asym:%s|%s" % tuple(sorted([it[2], it[3]])),
+                           "`%s` -> %s but `%s` -> %s" % (it[0], v1, it[1], v2), rp)
     return part.result()
 
 
@@ -231,13 +264,16 @@ def main():
     P = pool()
     rep = engine.Report(PID, "exploration",
                         "all ordered pairs (a,b) from an operand pool of %d expressions x %d commutative operators as (a op b) "
-                        "vs (b op a); all ordered pairs as `c ? a : b` vs `!c ? b : a`; all ordered pairs of %d typedef'd types "
+                        "vs (b op a); all ordered pairs as `c ? a : b` vs `!c ? b : a`; all ordered pairs of 16 l-values (mutable and const, "
+                        "ints, ranges, fields, elements, records) as branches of an inline-if that is written to in 7 ways; all ordered pairs of %d typedef'd types "
                         "as (argument type, reference parameter type) for functions (T&, const T&) and templates (T&); "
                         "non-trivial = the two operands/types differ" % (len(P), len(OPS), len(RTYPES)))
     shards = [([a], P) for a in P]
     for res in engine.pmap(shard_binary, shards):
         rep.merge(res)
     for res in engine.pmap(shard_inlineif, shards):
+        rep.merge(res)
+    for res in engine.pmap(shard_lvalue_inlineif, LV_POOL):
         rep.merge(res)
     run_refparams(rep)
     rep.extra["operand_pool"] = P
